@@ -15,7 +15,7 @@ CHECKS = {
         "real-analytic model (blocks bare and inside a solver, integer-typed arguments included). The interface half (place and wire by "
         "pin name, solve, str, print_S, show_free_pins, inspect for int and float arguments, every documented block) is an exhaustive "
         "enumeration of a finite table — finite checking, labelled so."
-        " Blocks added after seeded changes were missed: BeamSplitter with explicit transmission t (boundary values) and UserWaveguide with two modes of different key sets. Coefficients are looked up BY PIN NAME in the documented pin order (not only as a raw matrix); UserWaveguide is sampled with modes declared in unsorted order; BeamSplitter with a transmission argument is covered. A phase shifter whose shift is given only through the constructor default (renamed parameter, nothing passed at solve time) is sampled too.",
+        " Blocks added after seeded changes were missed: BeamSplitter with explicit transmission t (boundary values) and UserWaveguide with two modes of different key sets. Coefficients are looked up BY PIN NAME in the documented pin order (not only as a raw matrix); UserWaveguide is sampled with modes declared in unsorted order; BeamSplitter with a transmission argument is covered. A phase shifter whose shift is given only through the constructor default (renamed parameter, nothing passed at solve time) is sampled too. For half of the samples a second instance of the block (other arguments) is built and solved before the sample is read.",
    note="Trusted: Coq kernel; Coq.Reals axioms (ClassicalDedekindReals.sig_forall_dec, sig_not_dec, functional_extensionality_dep, "
         "Classical_Prop.classic) and what Interval/Flocq/Coquelicot add (listed per theorem and per generated lemma in the evidence); "
         "hand-written model Blocks.v; harness sampling. User index functions enter as their value. Follows the fixed code (F22-F24). The "
@@ -30,7 +30,7 @@ CHECKS = {
         "Pin object (results must be identical) and compares get_output, every row of get_full_output, get_data (T, Amplitude), get_A "
         "and get_T in amplitude and power mode with the model. dB = 10 log10 T and phase = arg A are real-analytic: tied by interval "
         "arithmetic in the same run."
-        " The full sweep table get_full_data (what export writes) is read too, with sweeps that start at a symmetric point; dark pin pairs (T = 0, dB = -inf) are included; dB and phase are tied by one generated interval lemma per sample. The solved model carries a swept and a length-1 parameter; the parameter columns of every table are checked (broadcast), also after the caller has overwritten the arrays it passed in. After the first read-outs two names of the result are swapped by pin_mapping: every accessor (by name and by Pin object) must follow the new labels.",
+        " The full sweep table get_full_data (what export writes) is read too, with sweeps that start at a symmetric point; dark pin pairs (T = 0, dB = -inf) are included; dB and phase are tied by one generated interval lemma per sample. The solved model carries a swept and a length-1 parameter; the parameter columns of every table are checked (broadcast), also after the caller has overwritten the arrays it passed in. After the first read-outs two names of the result are swapped by pin_mapping: every accessor (by name and by Pin object) must follow the new labels. Half of the read-out models carry modes on their pins (excitations keyed by name and by moded Pin object).",
    note="Trusted: Coq kernel + vm_compute; Bignums primitives for the executed instance; model Readout.v tied by sampled correspondence; "
         "pandas exercised, not verified; for dB/phase the Coq.Reals axioms and Interval. Follows the fixed code (F19).",
    technique="Coq proof (linearity/definitional laws) + vm_compute correspondence; interval lemmas for dB and phase", design="§5 C15"),
@@ -72,7 +72,7 @@ CHECKS = {
         "probe/spy leaves are swept over random mixes of scalar / length-1 / length-n values and malformed mixes, every sweep index compared "
         "with the model; (ii) EVERY bare library block (also inside a solver, and mode-expanded) is swept over each of its parameters and "
         "must equal bit-for-bit the stack of its scalar solves."
-        " Block table extended with UserWaveguide variants whose modes have different key sets, FPRGaussian with a callable slab index, and fine sweeps (values a few ppm apart, exact repeats). A third stream assigns SEVERAL parameters of every bare block at once (its own and ones it ignores) as scalar / length-1 / length-n mixes incl. inconsistent lengths; the model broadcasts and looks each point up in the table of /repo's scalar solves. On every run harness/translate_sweep.py also translates the CURRENT source of the sweep bookkeeping (Solver.solve: common length + broadcast; Model.solve: common length + the dictionary create_S sees at every point) to Gallina and coq/templates/SweepSrcProof.v proves it equal to Sweep.normalise / Sweep.sweep_solve for all assignments with distinct names (solver_normalise_src_is_normalise, model_sweep_src_is_sweep_solve; closed under the global context). Sweeps use complex parameter values (inside a solver and bare); the thermal phase shifter's index function depends on every documented argument (wl, R, w, pol) and each is swept. A fourth stream sweeps a phase section inside REFLECTIVE netlists (incl. reflector - phase - reflector chains) and compares slice k with the model's solve of the netlist of point k.",
+        " Block table extended with UserWaveguide variants whose modes have different key sets, FPRGaussian with a callable slab index, and fine sweeps (values a few ppm apart, exact repeats). A third stream assigns SEVERAL parameters of every bare block at once (its own and ones it ignores) as scalar / length-1 / length-n mixes incl. inconsistent lengths; the model broadcasts and looks each point up in the table of /repo's scalar solves. On every run harness/translate_sweep.py also translates the CURRENT source of the sweep bookkeeping (Solver.solve: common length + broadcast; Model.solve: common length + the dictionary create_S sees at every point) to Gallina and coq/templates/SweepSrcProof.v proves it equal to Sweep.normalise / Sweep.sweep_solve for all assignments with distinct names (solver_normalise_src_is_normalise, model_sweep_src_is_sweep_solve; closed under the global context). Sweeps use complex parameter values (inside a solver and bare); the thermal phase shifter's index function depends on every documented argument (wl, R, w, pol) and each is swept. A fourth stream sweeps a phase section inside REFLECTIVE netlists (incl. reflector - phase - reflector chains) and compares slice k with the model's solve of the netlist of point k. Half of the even-length sweep arrays are passed as 2-D grids held in column-major memory order.",
    note="Trusted: Coq kernel + vm_compute; models Sweep.v/Params.v tied by sampled correspondence; for the block half the scalar solve of "
         "/repo is the oracle (its physics is C09's subject). Names re-defined by add_param at the solved level are not swept (they are no "
         "longer parameters). Follows the fixed code (F02, F27).",
@@ -88,7 +88,7 @@ CHECKS = {
         "readings with the model's history-free value (spy leaves reveal every key they receive), and compares a fingerprint of every "
         "solver's structures, connections, exposed pins, renamings and defaults around each call. Monitor read-outs of earlier results are "
         "re-read in the C10 check."
-        " The histories include twins and replaced defaults; a further stream re-reads an earlier result's monitor read-out after the solver was solved again. A third stream builds the same circuit again from fresh objects AFTER earlier solves (incl. blocks created without a parameter dictionary) and requires the model's answer for the defaults. Two further streams: every library block solved several times in a row on one object (each argument changed in turn) against freshly built blocks; hierarchies whose sub-solver is edited between two solves of the parent.",
+        " The histories include twins and replaced defaults; a further stream re-reads an earlier result's monitor read-out after the solver was solved again. A third stream builds the same circuit again from fresh objects AFTER earlier solves (incl. blocks created without a parameter dictionary) and requires the model's answer for the defaults. Two further streams: every library block solved several times in a row on one object (each argument changed in turn) against freshly built blocks; hierarchies whose sub-solver is edited between two solves of the parent. A sixth stream overwrites the caller's sweep buffer right after a swept solve (the result's tables keep the solved values).",
    note="Trusted: Coq kernel + vm_compute; model Params.v tied by sampled correspondence; harness. The immutability of returned objects "
         "is an observation over the histories run, not a theorem. Follows the fixed code (F05).",
    technique="Coq theorems (history-freedom of the retained state) + vm_compute correspondence over solve histories with results kept alive", design="§5 C06"),
@@ -115,7 +115,7 @@ CHECKS = {
         "any schedule, has for the pins it owns the coefficients of the original solver (split_behaves). Closed under the global context. "
         "The tie runs split() of /repo on random graphs incl. cycles, stars whose hub is declared last, multi-links and isolated "
         "structures, compares the partition as a set of sets and each returned solver's matrix with the model's solve of that part."
-        " Further streams: split() after a structure was cut, added again and wired elsewhere; parametric parts whose FIRST solve is argument-less, with defaults changed after add_param. split() is also taken after remove_structure. Two refused links (occupied pin; structure outside the solver) are attempted right before split(). Some components are placed sub-solvers (exposures declared in reverse order).",
+        " Further streams: split() after a structure was cut, added again and wired elsewhere; parametric parts whose FIRST solve is argument-less, with defaults changed after add_param. split() is also taken after remove_structure. Two refused links (occupied pin; structure outside the solver) are attempted right before split(). Some components are placed sub-solvers (exposures declared in reverse order). After its parts have been solved the original is solved again and must answer as before; part results are read only after all solves.",
    note="Trusted: Coq kernel + vm_compute; Bignums primitives for the executed instance; model Split.v tied by sampled correspondence; "
         "harness. Follows the fixed code (F15). The 'defaults are handed over' half is checked in the C05/C06 parameter streams.",
    technique="Coq proof (loop invariant, all graphs and orders) + vm_compute correspondence of partitions and part matrices", design="§5 C12"),
@@ -131,7 +131,7 @@ CHECKS = {
         "overlapping mode lists; sub-solvers exposing Pin(base, mode)) through connect_all and compares with the model's solve of the "
         "multi-mode netlist AND with independent per-mode solves and zero cross-mode coefficients; runs the queries on models, results, "
         "structures and placed sub-solvers."
-        " The expansion stream includes blocks that refill one persistent buffer (CWA, FPR). Nested solvers and queries also use mode-major pin layouts (a_TE, b_TE, a_TM, b_TM). The expansion stream covers EVERY library block (constructors of the C04 table; found F31). Query cases use base names containing underscores (in_1, port_a1, o_1_2) and query their prefixes too. Half of the placed-structure query cases first lose all pins of one base name (a neighbour wired by connect_all is removed).",
+        " The expansion stream includes blocks that refill one persistent buffer (CWA, FPR). Nested solvers and queries also use mode-major pin layouts (a_TE, b_TE, a_TM, b_TM). The expansion stream covers EVERY library block (constructors of the C04 table; found F31). Query cases use base names containing underscores (in_1, port_a1, o_1_2) and query their prefixes too. Half of the placed-structure query cases first lose all pins of one base name (a neighbour wired by connect_all is removed). A user waveguide declared without modes is expanded like any other block.",
    note="Trusted: Coq kernel + vm_compute; Bignums primitives for the executed instance; model Modes.v tied by sampled correspondence; "
         "harness. The circuit-level statement is proved for circuits whose blocks all carry the same mode list (every link replicated per "
         "mode); partially overlapping mode lists are covered by the per-mode comparison in Coq (tie), not by a theorem. Follows the fixed code (F17, F18). Expansion of an "
@@ -147,7 +147,7 @@ CHECKS = {
         "mapped pins, renamed, and changes no kept coefficient (mode_select_ok); |z|^2 and arg z determine z (polar_roundtrip, over the "
         "reals). The tie exports hand-made and really solved sweeps with /repo, loads them with the real loader and compares pins and "
         "every coefficient at every exported point and at in-between values with the model."
-        " Two-parameter files are also evaluated with the keywords in the reverse of the file's column order. Mode mappings include swaps and chains of mode names (new names overlapping old ones). Two-parameter files include fine scans (the first parameter moves by a few ppm). 30 % of the results are exported once under provisional port names, re-labelled and exported again.",
+        " Two-parameter files are also evaluated with the keywords in the reverse of the file's column order. Mode mappings include swaps and chains of mode names (new names overlapping old ones). Two-parameter files include fine scans (the first parameter moves by a few ppm). 30 % of the results are exported once under provisional port names, re-labelled and exported again. Real solves include a solver exported with one port unmapped (matrix larger than the pin table).",
    note="Trusted: Coq kernel + vm_compute; Bignums primitives; Coq.Reals axioms for polar_roundtrip only; model InPulse.v/Interp.v tied by "
         "sampled correspondence; YAML/CSV, decimal printing and parsing, numpy and scipy interpolators are modelled (enc/dec parameters, "
         "interp1) not verified — their joint effect is what the tie observes. Two-parameter files: grid points only. Follows the fixed "
@@ -175,7 +175,7 @@ CHECKS = {
         "the global context. The tie executes random such programs on /repo with every module-level helper (put, putpin, Pin.put, "
         "connect, connect_all, raise_pins, add_param, set/update_default_params, add_structure_to_monitors, solve) and compares the kind "
         "of exit, lekkersim.sol_list afterwards and, for each helper call, which solver actually changed."
-        " All solvers of a program share one parameter name, so a helper that touches an enclosing solver's entry is seen. Programs also call Structure.raise_pins on placed models and placed sub-solvers; all solvers of a program own one common parameter name so that a helper reaching a wrong solver is visible. put is also exercised with a source pin and a target (Model.put and Solver.put by name); a stray lk.connect on an enclosing solver's free pins must be refused and change no solver. The solver of an enclosing, still open with-block may be placed into the innermost one (the placement belongs to the innermost solver). On every run harness/translate_stack.py also classifies EVERY occurrence of lekkersim.sol_list in the package (push in __enter__, pop in __exit__, use of sol_list[-1] elsewhere; any other use, a helper that is more than one delegation, or a Solver method that goes through the stack is rejected) and coq/templates/StackSrcProof.v proves that these operations are exactly the PWith / PHelper clauses of Stack.exec (enter_exit_src, with_src_is_PWith, users_act_on_top, helper_src_is_PHelper; closed under the global context). A placement whose connection is refused (error caught) must leave the stack of active solvers as it was.",
+        " All solvers of a program share one parameter name, so a helper that touches an enclosing solver's entry is seen. Programs also call Structure.raise_pins on placed models and placed sub-solvers; all solvers of a program own one common parameter name so that a helper reaching a wrong solver is visible. put is also exercised with a source pin and a target (Model.put and Solver.put by name); a stray lk.connect on an enclosing solver's free pins must be refused and change no solver. The solver of an enclosing, still open with-block may be placed into the innermost one (the placement belongs to the innermost solver). On every run harness/translate_stack.py also classifies EVERY occurrence of lekkersim.sol_list in the package (push in __enter__, pop in __exit__, use of sol_list[-1] elsewhere; any other use, a helper that is more than one delegation, or a Solver method that goes through the stack is rejected) and coq/templates/StackSrcProof.v proves that these operations are exactly the PWith / PHelper clauses of Stack.exec (enter_exit_src, with_src_is_PWith, users_act_on_top, helper_src_is_PHelper; closed under the global context). A placement whose connection is refused (error caught) must leave the stack of active solvers as it was. A few deep programs keep 9-12 with-blocks open at once.",
    note="Trusted: Coq kernel + vm_compute; CPython's with/try semantics as modelled; model Stack.v tied by sampled correspondence; harness "
         "(the changed solver is detected by fingerprinting all solvers before/after each helper).",
    technique="Coq proof by induction over programs + vm_compute correspondence of executed with-block programs + source-to-Gallina classification of every use of the solver stack proved to be the model's clauses on every run", design="§5 C17"),
@@ -202,7 +202,7 @@ CHECKS = {
         "same printable name make the name table refuse (for all pin lists); an accepted table resolves every name to exactly its pin; renamed "
         "pins are addressable by the new names. The tie replays histories with 30 % invalid calls by Pin object and by name on /repo, "
         "comparing ok/error and the observable state after every call and the final solve, and random pin-name tables with renamings "
-        "(swaps, chains, collisions) through Model.pin / Structure.pin. Renamings include ascending renumberings and swaps, after which every renamed pin must still address its own port; solver parameter defaults are part of the atomicity observation (a rejected add must not reset them). Model.put is addressed by Pin OBJECTS: own pins and foreign pins that merely print like an own pin; accepted iff the object is one of the model's pins (decided in Coq by pin_eqb), a refusal leaves the link tables untouched. On every run harness/translate_names.py also reads Pin (it must remain a frozen dataclass over (basename, mode_name) without hand-written equality or hash), Pin.name, Model.update_pins and Model.pin_mapping from the CURRENT source and coq/templates/NamesSrcProof.v proves them equal to Names.pin_name / update_pins / update_pins o rename_pins for all pin lists and renamings (3 theorems, closed under the global context). A placed structure's name table is read, the structure loses a pin (its neighbour is removed), and the table is read again. Likewise harness/translate_wiring.py executes the CURRENT source of Solver.connect symbolically (which tests, in which order, what has been written when the call is refused) and coq/templates/WiringSrcProof.v proves it equal to Wiring.step s (Connect x y) for every solver state and every pair of pins (connect_src_is_step, closed).",
+        "(swaps, chains, collisions) through Model.pin / Structure.pin. Renamings include ascending renumberings and swaps, after which every renamed pin must still address its own port; solver parameter defaults are part of the atomicity observation (a rejected add must not reset them). Model.put is addressed by Pin OBJECTS: own pins and foreign pins that merely print like an own pin; accepted iff the object is one of the model's pins (decided in Coq by pin_eqb), a refusal leaves the link tables untouched. On every run harness/translate_names.py also reads Pin (it must remain a frozen dataclass over (basename, mode_name) without hand-written equality or hash), Pin.name, Model.update_pins and Model.pin_mapping from the CURRENT source and coq/templates/NamesSrcProof.v proves them equal to Names.pin_name / update_pins / update_pins o rename_pins for all pin lists and renamings (3 theorems, closed under the global context). A placed structure's name table is read, the structure loses a pin (its neighbour is removed), and the table is read again. Likewise harness/translate_wiring.py executes the CURRENT source of Solver.connect symbolically (which tests, in which order, what has been written when the call is refused) and coq/templates/WiringSrcProof.v proves it equal to Wiring.step s (Connect x y) for every solver state and every pair of pins (connect_src_is_step, closed). Look-alike Pin objects are also addressed to get_A / get_T / get_output of the solved model.",
    note="Trusted: Coq kernel + vm_compute; models Wiring.v/Names.v tied by sampled correspondence; harness. Follows the fixed code (F01, F10, F11, F26).",
    technique="Coq proof (invariant + atomicity for all histories; name tables for all pin lists) + vm_compute correspondence of histories with invalid calls + source-to-Gallina translation of the name-table routines proved equal to the model on every run", design="§5 C16, §8"),
  "C20": dict(
@@ -246,7 +246,7 @@ CHECKS = {
         "solution by back-substitution), and that two declarations of the same circuit (components permuted, connections permuted and "
         "flipped, exposure permuted) yield the same coefficients (declaration_independent). Closed under the global context. The tie "
         "forces EVERY valid merge sequence of circuits with up to 4 (quick) / 5 (thorough) structures through a guarded hook in "
-        "Solver.solve and compares each with the model run on the same sequence; declarations are permuted in both construction styles. 30 % of the declaration-permutation cases declare part of the circuit as monitors (another elimination order, the library's own pick).",
+        "Solver.solve and compares each with the model run on the same sequence; declarations are permuted in both construction styles. 30 % of the declaration-permutation cases declare part of the circuit as monitors (another elimination order, the library's own pick). 30 % of the declaration-permutation cases give one port two external names (declared first or last).",
    note="Trusted: Coq kernel + vm_compute; Bignums primitives for the executed instance; model tied by sampled correspondence; the hook "
         "commit in /repo (add-only, guarded by LEKKERSIM_VERIF); harness. Conditional on both schedules being defined (inner systems invertible).",
    technique="Coq proof (all netlists, all schedule pairs) + exhaustive schedule forcing on small circuits vs model", design="§5 C03"),
@@ -270,7 +270,7 @@ CHECKS = {
         "dimensions, is slice-wise when batched, and that int_complete returns amplitudes satisfying both components' equations. "
         "All closed under the global context. The same Gallina definitions, instantiated with Gaussian rationals (bigQ), are run "
         "by vm_compute against S_matrix.add/int_complete of /repo on generated reflective blocks (incl. zero dimensions, batches, "
-        "broadcast, mismatches); Coq decides agreement within 1e-9 in exact arithmetic. Half of the unbatched cases fill the S_matrix blocks in place after construction (complex dtype of the allocated blocks). On every run harness/translate_kernel.py also translates the CURRENT source of S_matrix.__init__/add/int_complete to Gallina (shape inference, fail-closed) and coq/templates/KernelSrcProof.v proves the translated source equal to Kernel.sadd / Kernel.int_complete for all operands (add_src_is_sadd, int_complete_src_is_model; closed under the global context): for the kernel the tie is not only sampled. The add stream contains structured zeros (the product of the facing reflections vanishes in one order only). In 30 % of the int_complete cases the first operand has met another partner before the measured call.",
+        "broadcast, mismatches); Coq decides agreement within 1e-9 in exact arithmetic. Half of the unbatched cases fill the S_matrix blocks in place after construction (complex dtype of the allocated blocks). On every run harness/translate_kernel.py also translates the CURRENT source of S_matrix.__init__/add/int_complete to Gallina (shape inference, fail-closed) and coq/templates/KernelSrcProof.v proves the translated source equal to Kernel.sadd / Kernel.int_complete for all operands (add_src_is_sadd, int_complete_src_is_model; closed under the global context): for the kernel the tie is not only sampled. The add stream contains structured zeros (the product of the facing reflections vanishes in one order only). In 30 % of the int_complete cases the first operand has met another partner before the measured call. matrix() and det() of every 2-D join are compared with the block matrix [[S11, S12], [S21, S22]].",
    note="Trusted: Coq kernel + vm_compute; Bignums/Uint63 primitives (only for the executed instance BQCf, not for the theorems); "
         "hand-written model tied by sampled correspondence; harness (generators, float->dyadic transport, emitter, parser). "
         "Theorems are conditional on the model returning Ok (inner systems invertible). numpy is exercised, not verified.",
